@@ -694,6 +694,241 @@ func c04GenRetry(r *vfRand, adv bool) c04RetryIn {
 	return in
 }
 
+// ------------------------------------------------------------------ chain
+//
+// group chain: ONE request object passes through several balancers with different policies /
+// keys (ipHash, headerHash on X-User, headerHash on X-Key, roundRobin): at the LoadBalancer level
+// (ChooseServer of every stage on the same *httpprot.Request), through two or three Proxy filters
+// in sequence on the same context, and through a Proxy with a mirror pool next to its main pool
+// (mirror first / main first / the real Proxy.Handle).  Every stage's choice must be a function
+// of THAT stage's key and list only.
+
+type c04Stage struct {
+	Policy string `json:"policy"`
+	HKey   string `json:"hkey"`
+	N      int    `json:"n"`
+}
+
+type c04CReq struct {
+	Remote string `json:"remote"`
+	A      string `json:"a"` // value of X-User ("" = header absent)
+	B      string `json:"b"` // value of X-Key  ("" = header absent)
+}
+
+type c04ChainIn struct {
+	Level  string     `json:"level"` // lb | proxy | mirror
+	Order  string     `json:"order"` // mirror level: mirrorfirst | mainfirst | handle
+	Stages []c04Stage `json:"stages"`
+	Reqs   []c04CReq  `json:"reqs"`
+}
+
+type c04ChainObs struct {
+	Valid bool       `json:"valid"`
+	Keys  [][]string `json:"keys"` // per request, per stage: oracle key of that stage (RealIP / Header.Get)
+	Idxs  [][]int    `json:"idxs"` // per request, per stage: index of the chosen server (-1 none, -2 panic, -3 unknown)
+}
+
+func c04ChainURL(s, i int) string { return fmt.Sprintf("http://c%ds%d.test", s, i) }
+
+func c04ChainReq(rq c04CReq) *httpprot.Request {
+	stdr, err := http.NewRequest(http.MethodGet, "http://front.test/p", nil)
+	if err != nil {
+		panic(err)
+	}
+	stdr.RemoteAddr = rq.Remote
+	if rq.A != "" {
+		stdr.Header.Set("X-User", rq.A)
+	}
+	if rq.B != "" {
+		stdr.Header.Set("X-Key", rq.B)
+	}
+	stdr.Header.Set("X-Mirror", "1")
+	req, _ := httpprot.NewRequest(stdr)
+	req.FetchPayload(0)
+	return req
+}
+
+func c04StageKey(st c04Stage, req *httpprot.Request) string {
+	switch st.Policy {
+	case LoadBalancePolicyIPHash:
+		return req.RealIP()
+	case LoadBalancePolicyHeaderHash:
+		return req.HTTPHeader().Get(st.HKey)
+	}
+	return ""
+}
+
+func c04StagePool(s int, st c04Stage) map[string]interface{} {
+	svrs := []interface{}{}
+	for i := 0; i < st.N; i++ {
+		svrs = append(svrs, map[string]interface{}{"url": c04ChainURL(s, i)})
+	}
+	return map[string]interface{}{"servers": svrs,
+		"loadBalance": map[string]interface{}{"policy": st.Policy, "headerHashKey": st.HKey}}
+}
+
+func c04RunChain(in c04ChainIn) (obs c04ChainObs) {
+	obs.Keys, obs.Idxs = [][]string{}, [][]int{}
+	ns := len(in.Stages)
+	// transport double: records (stage, index) of every request handed to it
+	var mu sync.Mutex
+	sent := map[int]int{}
+	saved := fnSendRequest
+	defer func() { fnSendRequest = saved }()
+	fnSendRequest = func(r *http.Request, client *http.Client) (*http.Response, error) {
+		var s, i int
+		if _, err := fmt.Sscanf(r.URL.Host, "c%ds%d.test", &s, &i); err != nil {
+			s, i = -1, -3
+		}
+		mu.Lock()
+		sent[s] = i
+		mu.Unlock()
+		return &http.Response{StatusCode: 200, Header: http.Header{}, Body: io.NopCloser(strings.NewReader("")),
+			ProtoMajor: 1, ProtoMinor: 1, Request: r}, nil
+	}
+	var lbs []LoadBalancer
+	var proxies []*Proxy
+	switch in.Level {
+	case "lb":
+		for s, st := range in.Stages {
+			servers := make([]*Server, st.N)
+			for i := range servers {
+				servers[i] = &Server{URL: c04ChainURL(s, i)}
+			}
+			lbs = append(lbs, NewLoadBalancer(&LoadBalanceSpec{Policy: st.Policy, HeaderHashKey: st.HKey}, servers))
+		}
+	case "proxy":
+		for s, st := range in.Stages {
+			p := c04NewProxy(map[string]interface{}{"name": fmt.Sprintf("c04p%d", s), "kind": "Proxy",
+				"pools": []interface{}{c04StagePool(s, st)}}, nil)
+			if p == nil {
+				return
+			}
+			defer p.Close()
+			proxies = append(proxies, p)
+		}
+	case "mirror":
+		if ns != 2 {
+			return
+		}
+		mirror := c04StagePool(0, in.Stages[0])
+		mirror["filter"] = map[string]interface{}{"headers": map[string]interface{}{"X-Mirror": map[string]interface{}{"exact": "1"}}}
+		p := c04NewProxy(map[string]interface{}{"name": "c04m", "kind": "Proxy",
+			"pools": []interface{}{c04StagePool(1, in.Stages[1])}, "mirrorPool": mirror}, nil)
+		if p == nil {
+			return
+		}
+		defer p.Close()
+		proxies = append(proxies, p)
+	default:
+		return
+	}
+	obs.Valid = true
+	for _, rq := range in.Reqs {
+		req := c04ChainReq(rq)
+		keys := make([]string, ns)
+		idxs := make([]int, ns)
+		for s, st := range in.Stages {
+			keys[s] = c04StageKey(st, req)
+			idxs[s] = -1
+		}
+		mu.Lock()
+		sent = map[int]int{}
+		mu.Unlock()
+		guard := func(s int, f func()) {
+			defer func() {
+				if r := recover(); r != nil {
+					idxs[s] = -2
+				}
+			}()
+			f()
+		}
+		switch in.Level {
+		case "lb":
+			for s := range in.Stages {
+				guard(s, func() { idxs[s] = c04Choose(lbs[s], req) })
+			}
+		case "proxy":
+			ctx := context.New(tracing.NoopSpan)
+			ctx.SetRequest(context.DefaultNamespace, req)
+			for s := range in.Stages {
+				guard(s, func() { proxies[s].Handle(ctx) })
+			}
+		case "mirror":
+			ctx := context.New(tracing.NoopSpan)
+			ctx.SetRequest(context.DefaultNamespace, req)
+			p := proxies[0]
+			switch in.Order {
+			case "mainfirst":
+				guard(1, func() { p.mainPool.handle(ctx, false) })
+				guard(0, func() { p.mirrorPool.handle(ctx, true) })
+			case "handle":
+				// the real entry point: the mirror pool runs in its own goroutine; wait for its request
+				guard(1, func() { p.Handle(ctx) })
+				deadline := time.Now().Add(c04Deadline)
+				for {
+					mu.Lock()
+					_, got := sent[0]
+					mu.Unlock()
+					if got || time.Now().After(deadline) {
+						break
+					}
+					time.Sleep(100 * time.Microsecond)
+				}
+			default: // mirrorfirst
+				guard(0, func() { p.mirrorPool.handle(ctx, true) })
+				guard(1, func() { p.mainPool.handle(ctx, false) })
+			}
+		}
+		if in.Level != "lb" {
+			mu.Lock()
+			for s := range in.Stages {
+				if i, ok := sent[s]; ok && idxs[s] != -2 {
+					idxs[s] = i
+				}
+			}
+			mu.Unlock()
+		}
+		obs.Keys = append(obs.Keys, keys)
+		obs.Idxs = append(obs.Idxs, idxs)
+	}
+	return
+}
+
+func c04GenChain(r *vfRand, adv bool) c04ChainIn {
+	in := c04ChainIn{Level: r.PickStr("lb", "lb", "proxy", "mirror", "mirror")}
+	in.Order = r.PickStr("mirrorfirst", "mirrorfirst", "mainfirst", "handle")
+	ns := r.PickInt(2, 2, 3)
+	if in.Level == "mirror" {
+		ns = 2
+	}
+	kinds := []c04Stage{{Policy: LoadBalancePolicyIPHash}, {Policy: LoadBalancePolicyHeaderHash, HKey: "X-User"},
+		{Policy: LoadBalancePolicyHeaderHash, HKey: "X-Key"}, {Policy: LoadBalancePolicyHeaderHash, HKey: "x-user"},
+		{Policy: LoadBalancePolicyRoundRobin}}
+	for s := 0; s < ns; s++ {
+		st := kinds[r.Intn(len(kinds))]
+		if adv || r.Chance(3, 4) { // mostly hash stages
+			st = kinds[r.Intn(4)]
+		}
+		st.N = r.PickInt(2, 3, 5, 7, 8, 1)
+		if in.Level == "lb" && r.Chance(1, 12) {
+			st.N = 0
+		}
+		in.Stages = append(in.Stages, st)
+	}
+	// requests: a small cross product, so that requests share a header value but differ in the
+	// client address (and the other header), and vice versa
+	ips := []string{"10.0.0.1", "10.0.0.2", "192.168.7.9", "203.0.113.77", "8.8.8.8"}[:r.Range(2, 5)]
+	as := []string{"alice", "bob", "", "carol"}[:r.Range(2, 4)]
+	bs := []string{"k1", "", "k2"}[:r.Range(1, 3)]
+	k := r.Range(6, 24)
+	for i := 0; i < k; i++ {
+		in.Reqs = append(in.Reqs, c04CReq{Remote: fmt.Sprintf("%s:%d", ips[r.Intn(len(ips))], r.Range(1024, 1026)),
+			A: as[r.Intn(len(as))], B: bs[r.Intn(len(bs))]})
+	}
+	return in
+}
+
 // TestVerifC04Watch : groups watch + retry.
 func TestVerifC04Watch(t *testing.T) {
 	logger.InitNop()
@@ -713,6 +948,12 @@ func TestVerifC04Watch(t *testing.T) {
 				t.Fatal(err)
 			}
 			out.Emit(vfCase{ID: sc.ID, Src: sc.Src, Grp: "retry", In: in, Obs: c04RunRetry(in)})
+		case "chain":
+			var in c04ChainIn
+			if err := json.Unmarshal(sc.In, &in); err != nil {
+				t.Fatal(err)
+			}
+			out.Emit(vfCase{ID: sc.ID, Src: sc.Src, Grp: "chain", In: in, Obs: c04RunChain(in)})
 		}
 	}
 	if vfReplayOnly() {
@@ -727,7 +968,10 @@ func TestVerifC04Watch(t *testing.T) {
 	n := vfN(60)
 	for i := 0; i < n; i++ {
 		r := root.Fork(i)
-		if i%2 == 0 {
+		if i%3 == 2 {
+			in := c04GenChain(r, adv)
+			out.Emit(vfCase{ID: fmt.Sprintf("%s-chain-%d", src, i), Src: src, Grp: "chain", In: in, Obs: c04RunChain(in)})
+		} else if i%3 == 0 {
 			in := c04GenWatch(r, adv)
 			out.Emit(vfCase{ID: fmt.Sprintf("%s-watch-%d", src, i), Src: src, Grp: "watch", In: in, Obs: c04RunWatch(t, in)})
 		} else {
